@@ -177,6 +177,30 @@ theorem ljust_number (n w : Int64) :
   by_cases h : w.toInt - ((Utf8.runes (Val.int n).toS).length : Int) < 0 <;>
     simp [applyFilter, Val.toInt, Val.resolved, mkStr, h]
 
+/-! ### the `widthratio` tag -/
+
+theorem bind_ok {α β} {x : XM α} {f : α → XM β} {σ σ' : ES} {a : α}
+    (h : x.run σ = .ok a σ') : (x >>= f).run σ = (f a).run σ' := by
+  simp only [EStateM.run] at h ⊢
+  simp [bind, EStateM.bind, h]
+
+/-- **`widthratio` computes round-half-up of value / max · width in floating point** — the three
+    operands evaluated left to right, `0` for a maximum of zero — and prints it as a decimal
+    integer, or binds it under the `as` name without printing. -/
+theorem widthratio_value (T : LexTables) (cfg : SetCfg) (g : Env) (fuel : Nat) (c m w : Expr) (asName : Bytes)
+    (σ σ1 σ2 σ3 : ES) (cv mv wv : V)
+    (hc : (eval T cfg g fuel c).run σ = .ok cv σ1) (hm : (eval T cfg g fuel m).run σ1 = .ok mv σ2)
+    (hw : (eval T cfg g fuel w).run σ2 = .ok wv σ3) :
+    let value := if mv.v.toFloat == 0 then 0 else floatToInt (Float.floor (cv.v.toFloat / mv.v.toFloat * wv.v.toFloat + 0.5))
+    (execNode T cfg g (fuel + 1) (.tagWidthratio c m w asName)).run σ =
+      if asName = [] then (write (fmtInt value)).run σ3
+      else (modifyCur fun f => { f with priv := f.priv.set asName (.int value) }).run σ3 := by
+  intro value
+  unfold execNode
+  simp only []
+  rw [bind_ok hc, bind_ok hm, bind_ok hw]
+  by_cases h : asName = [] <;> simp [h, value]
+
 /-- the padding cap is the one in the code -/
 theorem gen_maxCharPadding : (Gen.maxCharPadding : Int) = maxCharPadding := by decide
 theorem gen_maxFloatFormatDecimals : (Gen.maxFloatFormatDecimals : Int) = maxFloatFormatDecimals := by decide
